@@ -19,7 +19,7 @@ Definition dispatch (kind : string) (args : list string) : string :=
         match cfg_of_toks hm rm lan bits, bytes_of_tok fr, bytes_of_tok sp with
         | Some c, Some b, Some spare =>
             out3 (show_parse c (of_bytes_cap b spare)) (show_spec b)
-                 (match known_C02 b with Some k => k | None => "-" end)
+                 (match known_C02 (c_fx c) b with Some k => k | None => "-" end)
         | _, _, _ => BADARGS
         end
     | _ => BADARGS
